@@ -28,7 +28,7 @@ ASSUMPTIONS = [
     'default/annotation expressions are compared with the C15 normalisation (set([...]), quotes, numbers by value); string annotations are compared unquoted, except inside Literal[...]',
 ]
 FLOOR = {'quick': 20000, 'thorough': 100000}
-SPACE = {'quick': '5 449 layouts <= 4 params x 3 return forms x 5 contexts; 5 449 overload groups; 18 defaults x 20 annotations x 3 shapes',
+SPACE = {'quick': '5 449 layouts <= 4 params x 3 return forms x 5 contexts; 5 449 overload groups; 18 defaults x 28 annotations x 3 shapes',
          'thorough': 'quick + all layouts of 5 params x {function, method}'}
 
 KINDS = ['po', 'pk', 'va', 'ko', 'vk']
@@ -250,7 +250,10 @@ DEFAULTS = ['1', '-1', "'s'", 'None', 'a.b', '(1, 2)', '(1,)', '[x]', '{}', 'x o
             "b\"it's\"", '{1, 2}', '-(a + b) * c']
 ANNOTS = ['int', "'int'", "'List[int]'", "List['A']", "Literal['a']", 'Optional["B"]', 'a.B', 'Callable[[int], str]', 'int | None', '"a.B"',
           'Tuple[int, ...]', "'Dict[str, \"A\"]'", 'C & "A | B"', '"A | B" & C', 'Tuple[()]', "Literal['A | B']", "typing.Literal['x', 1]", "'A' | 'B'",
-          "Annotated[int, 'meta']", "'Callable[..., \"A\"]'"]
+          "Annotated[int, 'meta']", "'Callable[..., \"A\"]'",
+          # Literal reached through any spelling: module aliases, nesting, inside a string annotation
+          "t.Literal['r', 'w']", "Optional[te.Literal['r']]", "'t.Literal[\"r\", \"w\"]'", "x.y.Literal['int']", "Literal[Literal['a'], 'b']", "List[Literal['List[int]']]",
+          "Dict['K', t.Literal['K']]", "'Optional[typing_extensions.Literal[\"A\"]]'"]
 
 
 def attribute(vs: List[Dict[str, Any]], dsig: Optional[str], a: str) -> None:
